@@ -37,7 +37,7 @@ PROPS = {
         "thorough": {"shards": 16, "timeout_s": 3000, "floors": {"distinct_nontrivial": 50000}},
     },
     "C09": {
-        "quick": {"shards": 8, "timeout_s": 900, "floors": {"distinct_nontrivial": 5000, "steps_compared": 5000, "records_with_visual_voting": 1000, "ret/add_track/duplicate-rejected": 100, "ret/merge_owned/err": 100, "ret/merge_external/err": 100, "add_missing_vs_external_build_compared": 100, "abstract_states": 500}},
+        "quick": {"shards": 8, "timeout_s": 900, "floors": {"distinct_nontrivial": 5000, "steps_compared": 50000, "ret/add_track/duplicate-rejected": 100, "ret/merge_owned/err": 100, "ret/merge_external/err": 100, "add_missing_vs_external_build_compared": 100, "abstract_states": 500}},
         "thorough": {"shards": 16, "timeout_s": 3400, "floors": {"distinct_nontrivial": 200000}, "engines": ["miri:c09"]},
     },
     "C10": {
